@@ -458,6 +458,84 @@ func TestVerif_C19(t *testing.T) {
 			}
 		}
 	}
+	// ---------- slot-to-cid and sig-to-cid in the deprecated file format ----------
+	// The readers still detect and serve the old compactindex36 files; a slot without a block must be skipped by the
+	// streams there too.
+	{
+		var cfgs []string
+		for _, e := range []*vEpoch{e1, e2} {
+			s2c, g2c, err := vkBuildLegacy36(e.Dir, e.Truth)
+			if err != nil {
+				R.Internal("cannot build the deprecated slot-to-cid / sig-to-cid indexes: %v", err)
+				return
+			}
+			saved := e.ConfigPath
+			cfgs = append(cfgs, e.writeConfig(vkConfigOpts{Name: "legacy36", NoGsfa: true, Overrides: map[string]string{"slot_to_cid": s2c, "sig_to_cid": g2c}}))
+			e.ConfigPath = saved
+		}
+		cache := vkNewCache()
+		la, err1 := vkLoadEpoch(cfgs[0], cache)
+		lb, err2 := vkLoadEpoch(cfgs[1], cache)
+		if err1 != nil || err2 != nil {
+			R.Note("the epochs do not load with deprecated slot-to-cid / sig-to-cid files: %v %v", err1, err2)
+			R.Exhaustive = false
+		} else {
+			mLegacy := vkNewMulti(2, la, lb)
+			for _, rg := range ranges {
+				mine := vkit.Mine(caseIdx)
+				caseIdx++
+				if !mine {
+					continue
+				}
+				end := rg.end
+				var wantB []uint64
+				for _, sl := range blockSlots {
+					if sl >= rg.start && sl <= rg.end {
+						wantB = append(wantB, sl)
+					}
+				}
+				q := map[string]interface{}{"scenario": "deprecated-slot-to-cid", "start": rg.start, "end": rg.end}
+				sb := &vkBlockStream{vkStreamBase: vkBase0()}
+				var berr error
+				if guard("StreamBlocks", q, func() {
+					berr = mLegacy.StreamBlocks(wire(&old_faithful_grpc.StreamBlocksRequest{StartSlot: rg.start, EndSlot: &end}).(*old_faithful_grpc.StreamBlocksRequest), sb)
+				}) {
+					var gotB []uint64
+					for _, b := range sb.Got {
+						gotB = append(gotB, b.Slot)
+					}
+					R.Case(len(wantB) > 0, "")
+					if berr != nil || fmt.Sprint(gotB) != fmt.Sprint(wantB) {
+						R.Violation("C19|StreamBlocks|deprecated-slot-to-cid", fmt.Sprintf("StreamBlocks[%d,%d] with the slot-to-cid index in the deprecated format: want slots %v got %v err=%v", rg.start, rg.end, wantB, gotB, berr), q)
+					}
+				}
+				var wantT []string
+				for _, tx := range all {
+					if tx.Slot >= rg.start && tx.Slot <= rg.end {
+						wantT = append(wantT, tx.Sig.String()[:8])
+					}
+				}
+				st := &vkTxStream{vkStreamBase: vkBase0()}
+				var terr error
+				if guard("StreamTransactions", q, func() {
+					terr = mLegacy.StreamTransactions(wire(&old_faithful_grpc.StreamTransactionsRequest{StartSlot: rg.start, EndSlot: &end}).(*old_faithful_grpc.StreamTransactionsRequest), st)
+				}) {
+					var gotT []string
+					for _, r := range st.Got {
+						if r.Transaction != nil && len(r.Transaction.Transaction) > 0 {
+							gotT = append(gotT, sigOf(r.Transaction.Transaction).String()[:8])
+						}
+					}
+					R.Case(len(wantT) > 0, "")
+					if terr != nil || fmt.Sprint(gotT) != fmt.Sprint(wantT) {
+						R.Violation("C19|StreamTransactions|deprecated-slot-to-cid", fmt.Sprintf("StreamTransactions[%d,%d] (no filter) with the slot-to-cid index in the deprecated format: want %v got %v err=%v", rg.start, rg.end, wantT, gotT, terr), q)
+					}
+				}
+			}
+			la.Close()
+			lb.Close()
+		}
+	}
 	// ---------- only one of the two epochs has an address index ----------
 	// "The set of transactions streamed does not depend on whether an address index is loaded": that includes a
 	// range that crosses an epoch with an index and one without.
